@@ -1,0 +1,13 @@
+//go:build verif
+
+package streamsql
+
+/*@
+// C20: the only package-level variables written outside init are the function registries (by Register*),
+// the lazily created expression bridge and the default logger. Anything else would be state shared between
+// instances.
+global_writer C20 functions.aggregatorAdapters functions.RegisterAggregatorAdapter
+global_writer C20 functions.globalBridge functions.GetExprBridge
+global_writer C20 functions.legacyAggregatorRegistry functions.RegisterLegacyAggregator
+global_writer C20 logger.defaultInstance logger.SetDefault
+@*/
